@@ -2,6 +2,9 @@ SPECIFICATION Spec
 CONSTANTS U = "thorough"
 INVARIANT TypeOK
 INVARIANT PerCell
+INVARIANT Propagates
+INVARIANT OwnState
+INVARIANT OwnDescription
 INVARIANT AsWritten
 INVARIANT TemplateUntouched
 INVARIANT CellsPartition
@@ -16,6 +19,8 @@ INVARIANT IterOnceEach
 INVARIANT OwnBinsContext
 INVARIANT MapShape
 PROPERTY NoCrossTalk
+PROPERTY InsideNotIgnored
+PROPERTY IterReadsOnly
 PROPERTY OutsideIgnored
 PROPERTY WriteIsLocal
 PROPERTY MutateIsLocal
